@@ -400,6 +400,11 @@ MUTATIONS = [
 """, """        if isinstance(fiber, elements.RamanFiber):
             continue
 """)]},
+    {'id': 'c11-revert-raman-fibre-printable-before-propagation', 'props': ['C11'], 'tests': 'tests/test_science_utils.py tests/test_path_computation_functions.py',
+     'desc': 'revert of the fix: str() of a RamanFiber that was never propagated raises AttributeError (hides NetworkXNoPath)',
+     'edits': [('gnpy/core/elements.py', """        if hasattr(self, "actual_raman_gain"):
+            text += """, """        if True:
+            text += """)]},
     {'id': 'c11-revert-explicit-ispart', 'props': ['C11'], 'tests': 'tests/test_path_computation_functions.py tests/test_disjunction.py',
      'desc': 'revert of fix e50d35fe: explicit route returned without checking the listed nodes are crossed in order',
      'edits': [('gnpy/topology/request.py', "    if total_path is not None and ispart(nodes_list, total_path):",
